@@ -317,6 +317,12 @@ def run(ctx, rep):
     except Exception as e:
         bad = [str(e)]
     rep.check(not bad, "K2", "C01|K2", cfg.where(fv), "the per-file closure returns its entry's own key and a result carrying the stored id (with and without a tree)")
+    # K4: "one result for each id CURRENTLY in the parser": the map validate works on is the parser's map as add_content / remove_content
+    # left it (no cache of an earlier answer, no second index of ids that can go stale)
+    rep.rule("K4", "inherits C12 H1 / H5 / H7 (re-evaluated here): only add_content and remove_content write the parser's state, remove_content is exactly "
+                   "lalrpop_results.remove(&id), and validate recomputes validation::validate(collect_item_keys(), the whole current map) on every call - "
+                   "so the ids of the returned map are the ids currently held, after any history of calls")
+    c12.inherit(ctx, rep, "C01", ("H1", "H2", "H5", "H7"), as_rule="K4")
     rep.assumptions += ["TB-2 the generated LR driver and lalrpop_util's lexer / recovery terminate and do not panic", "TB-3 dependencies do not panic for valid arguments (regex, line-col on token boundaries, std)",
                         "reviewed entries (D8) rest on reading: %d sites in find_content_string" % len(REVIEWED), "stack exhaustion by nesting depth and allocation failure are outside the property"]
     rep.not_decided += ["panics inside dependencies for valid arguments", "termination of the lalrpop runtime and of regex"]
